@@ -37,6 +37,8 @@ def jobs(tier):
            {"name": "oilp_cgdp-chain3-a2", "method": "oilp_cgdp", "algo": "dsa", "struct": "chain3", "agents": 2},
            {"name": "ilp_fgdp-pair-a2", "method": "ilp_fgdp", "algo": "maxsum", "struct": "pair", "agents": 2}]
     # two constraints over the same pair of variables (two links between the two computations)
+    out.append({"name": "oilp_cgdp-pair-a2-asymroutes", "method": "oilp_cgdp", "algo": "dsa", "struct": "pair", "agents": 2,
+                "asym_routes": True})
     out.append({"name": "oilp_cgdp-pair_dbl-a2", "method": "oilp_cgdp", "algo": "dsa", "struct": "pair_dbl", "agents": 2})
     if tier == "thorough":
         out += [{"name": "oilp_cgdp-pair-a3", "method": "oilp_cgdp", "algo": "dsa", "struct": "pair", "agents": 3},
@@ -74,7 +76,11 @@ def run(eng, p):
             hc[c] = (0 if k == "zero" else eng.sym_real("hc_%s_%s" % (an, c), -LIM, -1) if k == "neg"
                      else eng.sym_real("hc_%s_%s" % (an, c), 1, LIM))
             zero[(an, c)] = (k == "zero")
-        routes = {"a%d" % j: eng.sym_real("route_%d_%d" % (min(i, j), max(i, j)), 0, LIM) for j in range(p["agents"]) if j != i}
+        if p.get("asym_routes"):
+            # direction-dependent route costs (only expressible through the API: the yaml loader forces symmetry)
+            routes = {"a%d" % j: eng.sym_real("route_%d_to_%d" % (i, j), 0, LIM) for j in range(p["agents"]) if j != i}
+        else:
+            routes = {"a%d" % j: eng.sym_real("route_%d_%d" % (min(i, j), max(i, j)), 0, LIM) for j in range(p["agents"]) if j != i}
         agents.append(AgentDef(an, capacity=eng.sym_real("cap_" + an, 0, LIM), default_hosting_cost=1, hosting_costs=hc,
                                routes=routes, default_route=1))
         hosting[an] = hc
